@@ -26,13 +26,11 @@ OBLIGATIONS = [
     "SkVerif.C14.pad_eq_spec_longest",
     "SkVerif.C14.pad_cell_is_series_then_fill",
     "SkVerif.C14.pad_rejects_longer",
-    "SkVerif.C14.pad_array_cells_rejected_witness",
     "SkVerif.C14.minLength_is_shortest",
     "SkVerif.C14.truncate_eq_spec_shortest",
     "SkVerif.C14.truncate_eq_spec_lower",
     "SkVerif.C14.truncate_eq_spec_range",
     "SkVerif.C14.truncate_rejects_shorter",
-    "SkVerif.C14.truncate_array_cells_rejected_witness",
     "SkVerif.C14.pad_output_lengths_exact",
     "SkVerif.C14.truncate_output_lengths_exact",
     "SkVerif.C14.pad_rows_preserved_in_order",
@@ -49,8 +47,8 @@ OBLIGATIONS = [
     "SkVerif.C14.paa_rows_preserved_in_order",
     "SkVerif.C14.paa_rejects_bad_num_intervals",
     "SkVerif.C14.interval_segments_concat_eq_input",
-    "SkVerif.C14.iseg_count_eq_spec_partial",
-    "SkVerif.C14.iseg_count_drops_last_point_witness",
+    "SkVerif.C14.iseg_count_eq_spec",
+    "SkVerif.C14.iseg_count_concat_eq_input",
     "SkVerif.C14.iseg_rows_eq_spec",
     "SkVerif.C14.iseg_rows_tiling_concat_eq_input",
     "SkVerif.C14.iseg_count_rejects_too_many",
@@ -66,7 +64,6 @@ OBLIGATIONS = [
     "SkVerif.C14.interpolate_keeps_endpoints",
     "SkVerif.C14.interpolate_rows_preserved_in_order",
     "SkVerif.C14.interpolate_rejects_bad_length",
-    "SkVerif.C14.interpolate_array_cells_rejected_witness",
     "SkVerif.C14.ffill_eq_spec",
     "SkVerif.C14.bfill_eq_spec",
     "SkVerif.C14.impute_ffill_eq_spec",
@@ -78,10 +75,10 @@ OBLIGATIONS = [
     "SkVerif.C14.impute_linear_eq_spec",
     "SkVerif.C14.impute_nearest_eq_spec",
     "SkVerif.C14.impute_keeps_observed_and_length",
-    "SkVerif.C14.impute_drift_eq_ffill_bfill_partial",
-    "SkVerif.C14.impute_drift_no_trend_witness",
-    "SkVerif.C14.impute_missing_values_partial",
-    "SkVerif.C14.impute_missing_values_zero_ignored_witness",
+    "SkVerif.C14.ffill_then_bfill_eq_spec",
+    "SkVerif.C14.impute_drift_eq_spec",
+    "SkVerif.C14.drift_trend_is_least_squares",
+    "SkVerif.C14.impute_missing_values_eq_spec",
     "SkVerif.C14.impute_rejects_bad_configuration",
     "SkVerif.C14.rife_eq_spec",
     "SkVerif.C14.rife_interval_slice",
@@ -624,7 +621,7 @@ def iseg_oracle(c, out):
             row = xi[0]
             sizes = [len(s) for s in gi]
             if [v for s in gi for v in s] != row or max(sizes) - min(sizes) > 1:
-                # the known signature: every interval lost exactly its last point
+                # signature of the defect fixed by a79239a: every interval lost exactly its last point
                 q, r = divmod(n, iv)
                 blocks, pos = [], 0
                 for j in range(iv):
@@ -903,8 +900,6 @@ def impute_oracle(c, out):
         return [("impute:length", "%d values for %d" % (len(got), n))]
     fails = []
     raw = [None if v is None else Fr(v) for v in c["z"]]
-    if mv == 0 and any(r == 0 for r in raw) and all(g == 0 for g, r in zip(got, raw) if r == 0):
-        return [("impute:missing-values-zero-ignored", "missing_values=0: the zeros were not imputed: %s" % out)]
     for i, v in enumerate(z):
         if v is not None and (got[i] is None or not close(float(got[i]), v)):
             return [("impute:observed-value-changed", "position %d: %s -> %s" % (i, v, got[i]))]
@@ -939,6 +934,10 @@ def impute_oracle(c, out):
         if z[i] is None and want[i] is not None:
             alts = want[i] if isinstance(want[i], tuple) else (want[i],)
             if got[i] is None or not any(close(float(got[i]), a) for a in alts):
+                # signature of the defect fixed by 16d6ccd: the placeholder 0 was left in place
+                if mv == 0 and all(g == 0 for g, r in zip(got, raw) if r == 0) and \
+                        all(g is not None and r is not None and close(float(g), r) for g, r in zip(got, raw) if r is not None and r != 0):
+                    return [("impute:missing-values-zero-ignored", "missing_values=0: the zeros were not imputed: %s" % out)]
                 if m == "drift":
                     hf = _ffill(z); hf = _ffill(hf[::-1])[::-1]
                     if all(g is not None and close(float(g), h) for g, h in zip(got, hf)):
